@@ -177,6 +177,67 @@ pub fn synth_position(rng: &mut StdRng) -> Pos {
     }
 }
 
+/// Castling under pressure: the side to move has its king and at least one rook at home with the
+/// right, the path mostly empty, and enemy pieces — in a third of the cases the enemy KING — near
+/// or aimed at the squares the king starts on, crosses and lands on.
+pub fn castle_zone_position(rng: &mut StdRng) -> Pos {
+    loop {
+        let white = rng.gen_bool(0.5);
+        let mut p = Pos { b: [0; 64], wtm: white, castle: [false; 4], ep: None, half: rng.gen_range(0..40), full: rng.gen_range(1..120) };
+        let (r, sg): (i32, i8) = if white { (0, 1) } else { (7, -1) };
+        p.b[sq(4, r) as usize] = sg * K;
+        let wings = rng.gen_range(1..=3);
+        if wings & 1 != 0 { p.b[sq(7, r) as usize] = sg * R; p.castle[if white { WK } else { BK }] = true; }
+        if wings & 2 != 0 { p.b[sq(0, r) as usize] = sg * R; p.castle[if white { WQ } else { BQ }] = true; }
+        // squares of interest: b..g on the home rank
+        let targets: Vec<u8> = (1..=6).map(|f| sq(f, r)).collect();
+        // enemy king: near the path (but never next to our king) or anywhere
+        let mut placed = false;
+        for _ in 0..60 {
+            let s = if rng.gen_range(0..3) != 0 {
+                let t = *targets.choose(rng).unwrap();
+                let f = file_of(t) + rng.gen_range(-2..=2);
+                let rr = rank_of(t) + if white { rng.gen_range(1..=2) } else { -rng.gen_range(1..=2) };
+                if !(0..8).contains(&f) || !(0..8).contains(&rr) { continue; }
+                sq(f, rr)
+            } else { rng.gen_range(0..64u8) };
+            if p.b[s as usize] == 0 && ((file_of(s) - 4).abs() > 1 || (rank_of(s) - r).abs() > 1) {
+                p.b[s as usize] = -sg * K;
+                placed = true;
+                break;
+            }
+        }
+        if !placed { continue; }
+        // enemy pieces aimed at a path square
+        for _ in 0..rng.gen_range(0..=3) {
+            let kind = *[P, N, B, R, Q].choose(rng).unwrap();
+            let t = *targets.choose(rng).unwrap();
+            let mut cands: Vec<u8> = Vec::new();
+            for s in 0..64u8 {
+                if p.b[s as usize] != 0 || rank_of(s) == r { continue; }
+                if kind == P && (rank_of(s) == 0 || rank_of(s) == 7) { continue; }
+                let mut tt = p.clone();
+                tt.b = [0; 64];
+                tt.b[s as usize] = -sg * kind;
+                if tt.piece_attacks(s, t) { cands.push(s); }
+            }
+            if let Some(&s) = cands.choose(rng) { p.b[s as usize] = -sg * kind; }
+        }
+        // a few bystanders of either colour, sometimes on the path itself
+        for _ in 0..rng.gen_range(0..4) {
+            let s = if rng.gen_range(0..5) == 0 { *targets.choose(rng).unwrap() } else { rng.gen_range(0..64u8) };
+            let kind = *[P, N, B, R, Q].choose(rng).unwrap();
+            let c: i8 = if rng.gen_bool(0.5) { 1 } else { -1 };
+            if p.b[s as usize] == 0 && !(kind == P && (rank_of(s) == 0 || rank_of(s) == 7)) {
+                p.b[s as usize] = c * kind;
+            }
+        }
+        if p.is_legal_position() {
+            return p;
+        }
+    }
+}
+
 /// King plus 1..3 attackers of chosen kinds at every direction/distance — for check detection.
 pub fn check_position(rng: &mut StdRng) -> Pos {
     loop {
